@@ -11,7 +11,7 @@ EXPLANATION = ('Structural necessary conditions of C01: (tako) terminal announce
                'successful task result and a time-limit expiry stops the task and yields Failed; cancel_job is atomic (no await).')
 NOT_DECIDED = ['that the composition of both layers over all message orders yields exactly one announcement (needs the reachable protocol state space)',
                'event order in the journal beyond single-writer (C10 R10.5)']
-RELATED = {'C08': ['R08.2'], 'C06': ['R06.1'], 'C13': ['R13.2']}
+RELATED = {'C08': ['R08.2'], 'C06': ['R06.1'], 'C13': ['R13.2'], 'C02': ['R02.9', 'R02.8']}
 ASSUMPTIONS = ['per-connection FIFO; single-threaded LocalSet executor (interleaving only at await)']
 
 OPTION = 'core::option::Option'
@@ -200,8 +200,10 @@ def run(ctx):
 
     # signals: stop -> SIGINT, then SIGKILL when the process is still alive after the grace period
     hws = [prog.bodies[p_] for p_ in prog.with_closures('hyperqueue::worker::start::program::handle_task_with_signals')]
-    sigc = [b for b in hws if b.kind == 'closure' and b.call_blocks(lambda c: c.endswith('signal::killpg'))]
+    sigc = [b for b in hws if b.kind == 'closure' and b.call_blocks(lambda c: c.endswith(('signal::killpg', 'signal::kill')))]
     ctx.require(len(sigc) == 1, 'R01.6: the signal-sending closure of handle_task_with_signals')
+    ctx.ob('R01.6', 'handle_task_with_signals|signals go to the process group', bool(sigc[0].call_blocks(lambda c: c.endswith('signal::killpg'))) and not sigc[0].call_blocks(lambda c: c.endswith('signal::kill')),
+           'stop signals are sent with killpg to the whole process group of the task (kill(pid) reaches only the group leader: children of a canceled or timed-out task keep running after its terminal report)', sigc[0].loc())
     SIG = 'nix::sys::signal::Signal'
     sent = {}
     for b in hws:
@@ -226,6 +228,30 @@ def run(ctx):
         if ev and set(ev) == {'Left'} and tmo and bi not in b.reach_from([0], avoid=tmo):
             okk = True
     ctx.ob('R01.6', 'handle_task_with_signals|SIGKILL after the grace period', okk, 'when the stop request won and the process is still alive after the timeout it is killed (SIGKILL)', sent['SIGKILL'][0][0].loc(sent['SIGKILL'][0][1]) if 'SIGKILL' in sent else hws[0].loc())
+    # once a stop was requested (time limit / cancel) the outcome is the stop reason: the program's own exit result, which
+    # the grace-period timeout hands back, is not looked at
+    hco = [b for b in hws if b.kind == 'coroutine' and b.call_blocks(lambda c: c.endswith('time::timeout::timeout'))]
+    ctx.require(hco, 'R01.6: coroutine of handle_task_with_signals awaiting the grace-period timeout')
+    hb2 = hco[0]
+    tres = [l_ for l_ in range(len(hb2.locals)) if 'time::error::Elapsed' in hb2.locals[l_][0] and hb2.locals[l_][0].startswith('core::result::Result<')]
+    ctx.require(tres, 'R01.6: result of the awaited timeout not found')
+    from hqrules.core import rv_places as _rvp
+    reads = []
+    for bi_ in hb2.reachable():
+        for st_ in hb2.stmts(bi_):
+            if st_['k'] != 'a':
+                continue
+            for pl_ in _rvp(st_['rv']):
+                if pl_[0] in tres and any(isinstance(pr_, list) and pr_[0] == 'f' and len(pr_) > 4 and pr_[4] == 'Ok' for pr_ in pl_[1]):
+                    reads.append((bi_, st_))
+        t_ = hb2.term[bi_]
+        if t_ and t_['k'] == 'call':
+            for a_ in t_['args']:
+                pl_ = op_place(a_)
+                if pl_ and pl_[0] in tres and any(isinstance(pr_, list) and pr_[0] == 'f' and len(pr_) > 4 and pr_[4] == 'Ok' for pr_ in pl_[1]):
+                    reads.append((bi_, None))
+    ctx.ob('R01.6', 'handle_task_with_signals|stop reason wins over the exit result', not reads,
+           'after a stop request the Ok payload of timeout(grace, task) - the exit result of the program - is never read: a program that traps SIGINT and exits 0 after its time limit must still be reported by the stop reason', hb2.loc(reads[0][0], reads[0][1]) if reads else hb2.loc())
     # ---- R01.7
     cjs = [prog.bodies[p] for p in prog.with_closures(HQ + 'client::cancel_job') if prog.bodies[p].kind == 'coroutine']
     ctx.require(cjs, 'R01.7: cancel_job coroutine not found')
